@@ -5,6 +5,7 @@
 //! hooks in quinn-proto and prints one observation line per op followed by `#`.
 //! A panic inside a case is an outcome: the case prints `PANIC <message>` then `#`.
 mod asyncsim;
+mod hostile_tp;
 mod sim;
 use std::io::{self, BufRead, Write};
 use std::panic;
@@ -61,6 +62,14 @@ fn run_comp(name: &str, mode: u8) {
 }
 
 fn main() {
+    if std::env::var("QVH_LOG").is_ok() {
+        // debugging aid only: quinn's own trace output on stderr
+        let _ = tracing_subscriber::fmt()
+            .with_env_filter(tracing_subscriber::EnvFilter::new(std::env::var("QVH_LOG").unwrap()))
+            .with_writer(std::io::stderr)
+            .without_time()
+            .try_init();
+    }
     let args: Vec<String> = std::env::args().collect();
     match args.get(1).map(|s| s.as_str()) {
         Some("comp") => run_comp(&args[2], 0),
